@@ -4,29 +4,64 @@ from .. import build, gen
 from ..core import Result, HarnessBug
 from ..vm import Prog, expect_ok, lit_repr
 from . import maps
+from . import c09 as hist_lib            # container histories (seq_lines / map_lines) shared with C09
 
 ID = "C10"
 LEVEL = "exploration"
-BUDGET = {"quick": 3000, "thorough": 900000}
-RULE = ("case families: (scalar) one Int/Float/String/Type/plain-struct/Ref value materialised through two generated "
-        "histories out of {heap new, stack, embedded in Array/List, Table key/value, Tree key/value, copy, assign over a "
-        "pre-used object}; (seq) one element list built as Array/List/Tuple through direct construction, pushes, detours "
-        "(extra pushes + removals), reserves, copy, assign; (map) one binding set built as Table/Tree in two insertion "
-        "orders with detours (extra keys inserted and removed), reserves, copy, assign, keys from collision families; "
-        "(hash_data) byte strings of length 0..64+ at alignment offsets 0..7 against an independent MurmurHash64A; (swap) two "
-        "values of one family. Oracle: values equal by construction are eq (both directions) and have equal hash; eq => "
-        "equal hash on every compared pair; copy/assign results are eq and hash the same; swap exchanges the dumps. "
-        "non-trivial = the two histories differ (allocation class, insertion order, detour, kind) or the value is a corner "
-        "value (+-0.0, empty container/string, INT64_MIN). distinct = distinct case JSON.")
+BUDGET = {"quick": 4500, "thorough": 900000}
+RULE = ("case families: (scalar) one Int/Float/String/Type/plain-struct (3, 16, 20, 75 bytes)/Ref value materialised through two "
+        "generated histories out of {heap new, stack, embedded in Array/List, Table key/value, Tree key/value, copy, assign over a "
+        "pre-used heap / stack / container-embedded object; String also: concat of two halves, resize to a larger buffer, "
+        "truncation by resize; Type also: a run-time created type of the same name}; (seq) one element list (0..30 items) built "
+        "as Array/List/Tuple (elements Int, String, Float or a 20-byte struct) through direct construction, pushes, push_at front, detours, trim by resize, clear+refill, reserve, "
+        "copy, assign over a container of the same or another element type (another element size), assign from an empty source "
+        "then fill, concat, stack tuple, Tuple assigned from an Array; Float elements may differ in the sign of zero between the "
+        "two builds; (map) one binding set built as Table/Tree in two insertion orders with detours (extra keys inserted and "
+        "removed), reserves, prefill+clear, copy, assign from the same / the other kind / over a container of other key+value "
+        "types, keys from collision families or Floats, Float keys/values may differ in the sign of zero; (hash_data) byte "
+        "strings of length 0..64+ at alignment offsets 0..7 against an independent MurmurHash64A; (swap) two values of one "
+        "family in equal or different allocation classes (heap, stack, embedded in one or two Arrays/Lists, Table values), or "
+        "two containers (Array/List/Tuple of Int or String, Table, Tree) that are used (push/set, del) afterwards. Oracle: "
+        "values equal by construction are eq (both directions) and have equal hash; eq => equal hash on every compared pair; "
+        "copy/assign results are eq and hash the same; swap exchanges the dumps and the hashes. non-trivial = the two histories "
+        "differ (allocation class, insertion order, detour, kind) or the value is a corner value (+-0.0, empty container/string, "
+        "INT64_MIN). distinct = distinct case JSON.")
 ASSUMPTIONS = ["independent Python MurmurHash64A (seed 0xCe110) is the reference for hash_data",
                "Table eq is asserted only when both tables iterate in the same slot order (known finding table-cmp-slot-order); hash and bindings are always compared",
-               "NaN excluded; Box (owning pointer) not generated as a compared value"]
+               "NaN excluded; Box (owning pointer) not generated as a compared value",
+               "two type objects carrying one name (a static type and a run-time created one): eq is not demanded, only eq => equal hash",
+               "swap of Strings only between objects that own their buffer the same way (both heap/embedded or both stack): the "
+               "default swap exchanges the buffer pointers, so a stack String swapped with a heap String would hand a "
+               "non-heap buffer to a destructor",
+               "Range / Slice (Cmp without Hash, copy raises) are not generated: reported to the maintainer as a candidate defect"]
 
 HISTS = ["heap", "stack", "arr", "lst", "tabk", "tabv", "treek", "treev", "copy", "assign"]
+BLOBS = {"Blob": ("b:", 16), "Blob3": ("b3:", 3), "Blob20": ("b20:", 20), "Blob75": ("b75:", 75)}
 
 
 def prepare(tier):
     return {"ex_vm": build.executor("asan", "ex_vm")}
+
+
+def _blob(tn):
+    pre, n = BLOBS[tn]
+    edge = [bytes(n), b"\xff" * n, bytes(n - 1) + b"\x01"]
+    return st.one_of(st.binary(min_size=n, max_size=n), st.sampled_from(edge)).map(lambda b: [tn, pre + b.hex()])
+
+
+def _scalar_of(kind):
+    if kind == "Int":
+        return st.one_of(gen.ints(), st.sampled_from([0, -2**63, 2**63 - 1])).map(lambda v: ["Int", "i:%d" % v])
+    if kind == "Float":
+        return st.one_of(gen.floats(), st.sampled_from([0.0, -0.0])).map(lambda x: ["Float", "f:%016x" % gen.f2b(x)])
+    if kind == "String":
+        return st.one_of(gen.cbytes(20), gen.cbytes(20), st.builds(lambda u, k: (u or b"x") * k, gen.cbytes(5), st.sampled_from([7, 16, 40, 300]))
+                         ).map(lambda b: ["String", "s:" + b.hex()])
+    if kind in BLOBS:
+        return _blob(kind)
+    if kind == "Type":
+        return st.sampled_from(["Int", "String", "Array", "Table", "KeyError", "Cmp"]).map(lambda n: ["Type", "t:" + n])
+    raise HarnessBug(kind)
 
 
 def _scalar():
@@ -35,76 +70,135 @@ def _scalar():
         st.sampled_from([0, -2**63, 2**63 - 1]).map(lambda v: ["Int", "i:%d" % v]),
         gen.floats().map(lambda x: ["Float", "f:%016x" % gen.f2b(x)]),
         st.sampled_from([0.0, -0.0]).map(lambda x: ["Float", "f:%016x" % gen.f2b(x)]),
-        gen.cbytes(20).map(lambda b: ["String", "s:" + b.hex()]),
-        st.binary(min_size=16, max_size=16).map(lambda b: ["Blob", "b:" + b.hex()]),
-        st.sampled_from(["Int", "String", "Array", "Table", "KeyError", "Cmp"]).map(lambda n: ["Type", "t:" + n]),
+        _scalar_of("String"),
+        _blob("Blob"), _blob("Blob3"), _blob("Blob20"), _blob("Blob75"),
+        _scalar_of("Type"),
     )
+
+
+def _hists_for(tn):
+    if tn == "Type":
+        return ["stack", "stack", "dyn"]
+    if tn in BLOBS:
+        return ["heap", "stack", "arr", "lst", "copy", "assign", "tabv", "treev", "assign_embed", "assign_stack"]
+    if tn == "String":
+        return HISTS + ["assign_embed", "str_concat", "str_reserve", "str_trunc"]
+    return HISTS + ["assign_embed", "assign_stack"]
+
+
+def _flip_zero(lit):
+    """f:<bits> of +0.0 <-> -0.0, anything else unchanged"""
+    if lit == "f:0000000000000000":
+        return "f:8000000000000000"
+    if lit == "f:8000000000000000":
+        return "f:0000000000000000"
+    return lit
+
+
+@st.composite
+def _float_universe(draw, lo, hi):
+    xs = draw(st.lists(st.one_of(st.sampled_from([0.0, -0.0, 1.0, -1.0, 0.5, 2.0**53, 5e-324]), gen.finite_floats()),
+                       min_size=lo, max_size=hi, unique=True))      # unique by value: 0.0 and -0.0 are one key
+    return ["f:%016x" % gen.f2b(x) for x in xs]
+
+
+_SWAP_CLS = ["heap", "stack", "arr", "lst", "tabv", "same_arr", "same_lst"]
 
 
 @st.composite
 def _case(draw):
-    fam = draw(st.sampled_from(["scalar", "scalar", "seq", "seq", "map", "map", "hash_data", "swap", "zero"]))
+    fam = draw(st.sampled_from(["scalar", "scalar", "seq", "seq", "map", "map", "hash_data", "swap", "swap", "zero"]))
     if fam == "scalar":
         v = draw(_scalar())
-        hs = HISTS if v[0] not in ("Type",) else ["stack"]
-        if v[0] == "Blob":
-            hs = ["heap", "stack", "arr", "lst", "copy", "assign", "tabv", "treev"]
+        hs = _hists_for(v[0])
         return {"fam": fam, "val": v, "hist": [draw(st.sampled_from(hs)), draw(st.sampled_from(hs))],
-                "other": draw(_scalar())}
+                "other": draw(_scalar_of(v[0]))}
     if fam == "zero":
+        hs = _hists_for("Float")
         return {"fam": "scalar", "val": ["Float", "f:%016x" % gen.f2b(0.0)], "val2": ["Float", "f:%016x" % gen.f2b(-0.0)],
-                "hist": [draw(st.sampled_from(HISTS)), draw(st.sampled_from(HISTS))], "other": ["Float", "f:%016x" % gen.f2b(1.5)]}
+                "hist": [draw(st.sampled_from(hs)), draw(st.sampled_from(hs))], "other": ["Float", "f:%016x" % gen.f2b(1.5)]}
     if fam == "seq":
-        et = draw(st.sampled_from(["Int", "String", "Float"]))
-        ev = {"Int": st.one_of(st.integers(-3, 3), gen.ints()).map(lambda v: "i:%d" % v),
+        et = draw(st.sampled_from(["Int", "String", "Float", "Blob20"]))
+        ev = {"Blob20": st.one_of(st.sampled_from([bytes(20), b"\xff" * 20]), st.binary(min_size=20, max_size=20)).map(lambda b: "b20:" + b.hex()),
+              "Int": st.one_of(st.integers(-3, 3), gen.ints()).map(lambda v: "i:%d" % v),
               "String": gen.cbytes(5).map(lambda b: "s:" + b.hex()),
-              "Float": st.one_of(st.sampled_from([0.0, 1.0, -1.5]), gen.finite_floats()).map(lambda x: "f:%016x" % gen.f2b(x))}[et]
-        items = draw(st.lists(ev, max_size=8))
+              "Float": st.one_of(st.sampled_from([0.0, -0.0, 1.0, -1.5]), gen.finite_floats()).map(lambda x: "f:%016x" % gen.f2b(x))}[et]
+        items = draw(st.one_of(st.lists(ev, max_size=8), st.lists(ev, max_size=8), st.lists(ev, max_size=8), st.lists(ev, min_size=9, max_size=30)))
         builds = []
         for _ in range(2):
-            builds.append({"kind": draw(st.sampled_from(["Array", "List", "Tuple"])),
-                           "how": draw(st.sampled_from(["direct", "push", "detour", "reserve", "copy", "assign"])),
-                           "extra": draw(st.lists(ev, min_size=1, max_size=3))})
+            kind = draw(st.sampled_from(["Array", "List", "Tuple"]))
+            b = {"kind": kind, "how": draw(st.sampled_from(hist_lib.TUP_HOWS if kind == "Tuple" else hist_lib.SEQ_HOWS)),
+                 "extra": draw(st.lists(ev, min_size=1, max_size=3))}
+            if et == "Float" and draw(st.booleans()):
+                b["zflip"] = True
+            builds.append(b)
         return {"fam": fam, "et": et, "items": items, "builds": builds}
     if fam == "map":
-        kt, vt = draw(st.sampled_from([("Int", "Int"), ("String", "Int"), ("Int", "String"), ("String", "String"), ("Int", "Blob"), ("String", "Blob")]))
-        uni = draw(maps.universe(kt, 4, 12))
+        kt, vt = draw(st.sampled_from([("Int", "Int"), ("String", "Int"), ("Int", "String"), ("String", "String"), ("Int", "Blob"), ("String", "Blob"),
+                                       ("Int", "Float"), ("Float", "Int"), ("Float", "Float")]))
+        lo, hi = draw(st.sampled_from([(4, 12), (4, 12), (4, 12), (14, 30)]))
+        uni = draw(_float_universe(lo, hi)) if kt == "Float" else draw(maps.universe(kt, lo, hi))
         nk = draw(st.integers(0, len(uni) - 2))
         keys = uni[:nk]
         extra_keys = uni[nk:]
-        vals = [draw(maps.values(vt)) for _ in keys]
+        if vt == "Float":
+            vals = [draw(st.sampled_from([0.0, -0.0, 1.0, -2.5, 1e300]).map(lambda x: "f:%016x" % gen.f2b(x))) for _ in keys]
+        else:
+            vals = [draw(maps.values(vt)) for _ in keys]
         builds = []
         for _ in range(2):
-            builds.append({"kind": draw(st.sampled_from(["Table", "Table", "Tree"])),
-                           "order": draw(st.permutations(list(range(nk)))),
-                           "detour": draw(st.lists(st.integers(0, len(extra_keys) - 1), max_size=3)),
-                           "detour_at": draw(st.integers(0, 1000)),
-                           "reserve": draw(st.sampled_from([0, 0, 7, 30])),
-                           "via": draw(st.sampled_from(["direct", "copy", "assign"]))})
+            b = {"kind": draw(st.sampled_from(["Table", "Table", "Tree"])),
+                 "order": draw(st.permutations(list(range(nk)))),
+                 "detour": draw(st.lists(st.integers(0, len(extra_keys) - 1), max_size=3)),
+                 "detour_at": draw(st.integers(0, 1000)),
+                 "reserve": draw(st.sampled_from([0, 0, 7, 30])),
+                 "via": draw(st.sampled_from(["direct", "direct", "copy", "assign", "assign_x", "assign_retype"]))}
+            if draw(st.integers(0, 3)) == 0:
+                b["prefill"] = True
+            if "Float" in (kt, vt) and draw(st.booleans()):
+                b["zflip"] = True
+            builds.append(b)
         return {"fam": fam, "kt": kt, "vt": vt, "keys": keys, "vals": vals, "extra": extra_keys, "builds": builds}
     if fam == "hash_data":
         n = draw(st.one_of(st.integers(0, 64), st.integers(0, 64), st.integers(65, 600)))
         return {"fam": fam, "data": draw(st.binary(min_size=n, max_size=n)).hex(), "off": draw(st.integers(0, 7))}
     # swap
-    a = draw(_scalar())
-    kind = a[0]
-    b = draw(_scalar().filter(lambda v: v[0] == kind))
-    return {"fam": "swap", "a": a, "b": b, "cls": draw(st.sampled_from(["heap", "stack", "arr"])),
-            "cont": draw(st.booleans()), "items": [draw(st.lists(st.integers(-5, 5), max_size=5)), draw(st.lists(st.integers(-5, 5), max_size=5))],
-            "ck": draw(st.sampled_from(["Array", "List", "Table", "Tree", "Tuple", "Table", "Tree"]))}
+    if draw(st.booleans()):
+        et = draw(st.sampled_from(["Int", "Int", "String"]))
+        el = st.integers(-5, 5) if et == "Int" else st.sampled_from(["", "61", "6162", "80ff", "7a" * 9])
+        return {"fam": "swap", "cont": True, "et": et, "items": [draw(st.lists(el, max_size=5)), draw(st.lists(el, max_size=5))],
+                "ck": draw(st.sampled_from(["Array", "List", "Table", "Tree", "Tuple", "Array", "List", "Tuple"])),
+                "use": draw(st.booleans())}
+    kind = draw(st.sampled_from(["Int", "Float", "String", "String", "Blob", "Blob3", "Blob20", "Blob75"]))
+    a = draw(_scalar_of(kind))
+    b = draw(_scalar_of(kind))
+    c1 = draw(st.sampled_from(_SWAP_CLS))
+    if c1.startswith("same_"):
+        c2 = c1
+    elif kind == "String":
+        # Strings: both own a heap buffer (heap object / embedded element) or both are stack temporaries
+        c2 = "stack" if c1 == "stack" else draw(st.sampled_from(["heap", "arr", "lst", "tabv"]))
+    else:
+        c2 = draw(st.sampled_from(["heap", "stack", "arr", "lst", "tabv", c1, c1]))
+    return {"fam": "swap", "cont": False, "a": a, "b": b, "cls2": [c1, c2]}
 
 
 def strategy(tier):
     return _case()
 
 
-_DEF = {"Int": "i:7", "Float": "f:3ff0000000000000", "String": "s:7a7a7a7a7a", "Blob": "b:" + "11" * 16}
+_DEF = {"Int": "i:7", "Float": "f:3ff0000000000000", "String": "s:7a7a7a7a7a", "Blob": "b:" + "11" * 16,
+        "Blob3": "b3:" + "11" * 3, "Blob20": "b20:" + "11" * 20, "Blob75": "b75:" + "11" * 75}
 
 
 def materialise(P, slot, aux, val, hist, other):
     """put an object holding `val` into slot via the given history; aux..aux+2 are scratch slots"""
     tn, lit = val
-    if tn == "Type" or hist == "stack":
+    ok = lambda what: (lambda o: None if o.startswith("ok") else what + " failed: " + o)
+    if tn == "Type" and hist == "dyn":
+        # a second, run-time created type object carrying the same name
+        P.add("new %%%d heap t:Type s:%s i:8" % (slot, lit[2:].encode().hex()))
+    elif tn == "Type" or hist == "stack":
         P.add("tmp %%%d %s" % (slot, lit))
     elif hist == "heap":
         P.add("new %%%d heap t:%s %s" % (slot, tn, lit))
@@ -121,11 +215,32 @@ def materialise(P, slot, aux, val, hist, other):
         P.add("get %%%d i:1 %%%d" % (aux, slot))
     elif hist == "copy":
         P.add("tmp %%%d %s" % (aux, lit))
-        P.add("copy %%%d %%%d" % (slot, aux), lambda o: None if o.startswith("ok") else "copy failed: " + o)
+        P.add("copy %%%d %%%d" % (slot, aux), ok("copy"))
     elif hist == "assign":
         olit = other[1] if other[0] == tn else _DEF[tn]
         P.add("new %%%d heap t:%s %s" % (slot, tn, olit))
-        P.add("assign %%%d %s" % (slot, lit), lambda o: None if o.startswith("ok") else "assign failed: " + o)
+        P.add("assign %%%d %s" % (slot, lit), ok("assign"))
+    elif hist == "assign_embed":
+        # assignment in place onto an element that lives inside a container
+        olit = other[1] if other[0] == tn else _DEF[tn]
+        P.add("new %%%d heap t:%s t:%s %s %s %s" % (aux, "Array" if slot % 2 == 0 else "List", tn, _DEF[tn], olit, _DEF[tn]))
+        P.add("get %%%d i:1 %%%d" % (aux, slot))
+        P.add("assign %%%d %s" % (slot, lit), ok("assign"))
+    elif hist == "assign_stack":
+        olit = other[1] if other[0] == tn else _DEF[tn]
+        P.add("tmp %%%d %s" % (slot, olit))
+        P.add("assign %%%d %s" % (slot, lit), ok("assign"))
+    elif hist in ("str_concat", "str_reserve", "str_trunc"):
+        b = bytes.fromhex(lit[2:])
+        if hist == "str_concat":
+            P.add("new %%%d heap t:String s:%s" % (slot, b[:len(b) // 2].hex()))
+            P.add("concat %%%d s:%s" % (slot, b[len(b) // 2:].hex()))
+        elif hist == "str_reserve":
+            P.add("new %%%d heap t:String %s" % (slot, lit))
+            P.add("resize %%%d %d" % (slot, len(b) + 17))
+        else:
+            P.add("new %%%d heap t:String s:%s" % (slot, (b + b"tail" + b[:3]).hex()))
+            P.add("resize %%%d %d" % (slot, len(b)))
     else:
         raise HarnessBug(hist)
 
@@ -145,6 +260,11 @@ class Grab:
         return chk
 
 
+def _norm_zero(tok):
+    """dump token of -0.0 -> that of +0.0 (the two are one value)"""
+    return "f0000000000000000" if tok == "f8000000000000000" else tok
+
+
 def run_case(ctx, case):
     P = Prog()
     G = Grab()
@@ -152,6 +272,7 @@ def run_case(ctx, case):
     nt = False
     ev = [fam]
     post = []          # deferred comparisons: callables -> message|None
+    okc = lambda what: (lambda o: None if o.startswith("ok") else what + " failed: " + o)
 
     def eq_and_hash(a, b, tag, assert_eq=True):
         P.add("eq %%%d %%%d" % (a, b), G.want(tag + ".eq1"))
@@ -183,28 +304,33 @@ def run_case(ctx, case):
         v2 = case.get("val2", v1)
         materialise(P, 0, 10, v1, case["hist"][0], case["other"])
         materialise(P, 1, 14, v2, case["hist"][1], case["other"])
-        eq_and_hash(0, 1, "pair")
+        eq_and_hash(0, 1, "pair", assert_eq=(v1[0] != "Type" or "dyn" not in case["hist"]))
         # copy / assign of the first value
         if v1[0] == "Type":
             # copying / assigning type objects is documented to raise ValueError
             from ..vm import expect_exc
             P.add("copy %2 %0", expect_exc("ValueError"))
         else:
-            P.add("copy %2 %0", lambda o: None if o.startswith("ok") else "copy failed: " + o)
+            P.add("copy %2 %0", okc("copy"))
             eq_and_hash(0, 2, "copy")
         if v1[0] != "Type":
             olit = case["other"][1] if case["other"][0] == v1[0] else _DEF[v1[0]]
             P.add("new %%3 heap t:%s %s" % (v1[0], olit))
-            P.add("assign %3 %0", lambda o: None if o.startswith("ok") else "assign failed: " + o)
+            P.add("assign %3 %0", okc("assign"))
             eq_and_hash(0, 3, "assign")
             # an unrelated value: eq => hash equal
             P.add("new %%4 heap t:%s %s" % (v1[0], olit))
             eq_and_hash(0, 4, "other", assert_eq=False)
         if v1[0] in ("Int", "String", "Float"):
-            # Ref to the same target compare/hash equal
+            # Refs to the same target compare/hash equal, however the Ref was made (stack, heap, copy, assign over another Ref)
             P.add("tmp %5 r:%0")
             P.add("new %6 heap t:Ref %0")
             eq_and_hash(5, 6, "ref")
+            P.add("copy %7 %6", okc("copy"))
+            eq_and_hash(6, 7, "refcopy")
+            P.add("new %8 heap t:Ref %1")
+            P.add("assign %8 %5", okc("assign"))
+            eq_and_hash(5, 8, "refassign")
         nt = case["hist"][0] != case["hist"][1] or v1 != v2 or v1[1] in ("i:%d" % -2**63, "s:", "f:%016x" % gen.f2b(0.0), "f:%016x" % gen.f2b(-0.0))
         ev.append("type=" + v1[0])
         ev += ["hist=" + h for h in case["hist"]]
@@ -213,100 +339,81 @@ def run_case(ctx, case):
         tagc = {"Array": "A", "List": "L", "Tuple": "U"}
         pool = [20]
 
-        def mk(slot, b):
-            kind, how = b["kind"], b["how"]
-            if kind == "Tuple":
-                refs = []
-                for it in items:
-                    pool[0] += 1
-                    P.add("new %%%d heap t:%s %s" % (pool[0], et, it))
-                    refs.append("%%%d" % pool[0])
-                if how in ("direct", "reserve"):
-                    P.add("new %%%d heap t:Tuple %s" % (slot, " ".join(refs)))
-                elif how in ("push", "detour"):
-                    P.add("new %%%d heap t:Tuple" % slot)
-                    for r in refs:
-                        P.add("push %%%d %s" % (slot, r))
-                    if how == "detour":
-                        pool[0] += 1
-                        P.add("new %%%d heap t:%s %s" % (pool[0], et, b["extra"][0]))
-                        P.add("push %%%d %%%d" % (slot, pool[0]))
-                        P.add("pop %%%d" % slot)
-                else:
-                    P.add("new %%%d heap t:Tuple %s" % (slot + 4, " ".join(refs)))
-                    if how == "copy":
-                        P.add("copy %%%d %%%d" % (slot, slot + 4), lambda o: None if o.startswith("ok") else "copy failed: " + o)
-                    else:
-                        P.add("new %%%d heap t:Tuple" % slot)
-                        P.add("assign %%%d %%%d" % (slot, slot + 4), lambda o: None if o.startswith("ok") else "assign failed: " + o)
-                return
-            if how == "direct":
-                P.add("new %%%d heap t:%s t:%s %s" % (slot, kind, et, " ".join(items)))
-            elif how in ("push", "detour", "reserve"):
-                P.add("new %%%d heap t:%s t:%s" % (slot, kind, et))
-                if how == "reserve" and kind == "Array":
-                    P.add("resize %%%d %d" % (slot, len(items) + 9))
-                for j, it in enumerate(items):
-                    P.add("push %%%d %s" % (slot, it))
-                    if how == "detour" and j == len(items) // 2:
-                        for x in b["extra"]:
-                            P.add("push %%%d %s" % (slot, x))
-                        for x in b["extra"]:
-                            P.add("pop %%%d" % slot)
-                if how == "detour":
-                    P.add("push_at %%%d %s i:0" % (slot, b["extra"][0]) if items else "push %%%d %s" % (slot, b["extra"][0]))
-                    P.add("pop_at %%%d i:0" % slot)
-            else:
-                P.add("new %%%d heap t:%s t:%s %s" % (slot + 4, "List" if kind == "Array" else "Array", et, " ".join(items)))
-                if how == "copy":
-                    P.add("new %%%d heap t:%s t:%s %s" % (slot + 5, kind, et, " ".join(items)))
-                    P.add("copy %%%d %%%d" % (slot, slot + 5), lambda o: None if o.startswith("ok") else "copy failed: " + o)
-                else:
-                    P.add("new %%%d heap t:%s t:%s %s" % (slot, kind, et, " ".join(b["extra"])))
-                    P.add("assign %%%d %%%d" % (slot, slot + 4), lambda o: None if o.startswith("ok") else "assign failed: " + o)
-        mk(0, case["builds"][0])
-        mk(1, case["builds"][1])
-        for s, b in ((0, case["builds"][0]), (1, case["builds"][1])):
-            P.add("repr %%%d" % s, expect_ok("%s[%s]" % (tagc[b["kind"]], ",".join(lit_repr(x) for x in items))))
+        def fresh():
+            pool[0] += 1
+            if pool[0] >= 250:
+                raise HarnessBug("out of slots")
+            return pool[0]
+        for s_, b in ((0, case["builds"][0]), (1, case["builds"][1])):
+            its = [_flip_zero(x) for x in items] if b.get("zflip") else list(items)
+            lines = hist_lib.seq_lines(s_, b["kind"], et, its, b["how"], b["extra"], fresh)
+            for l in lines:
+                P.add(l, okc(l.split()[0]))
+            P.add("repr %%%d" % s_, expect_ok("%s[%s]" % (tagc[b["kind"]], ",".join(lit_repr(x) for x in its))))
         eq_and_hash(0, 1, "pair")
-        P.add("copy %2 %0", lambda o: None if o.startswith("ok") else "copy failed: " + o)
+        P.add("copy %2 %0", okc("copy"))
         eq_and_hash(0, 2, "copy")
         nt = case["builds"][0] != case["builds"][1] or not items
         ev += ["kind=" + b["kind"] for b in case["builds"]] + ["how=" + b["how"] for b in case["builds"]]
+        if any(b.get("zflip") for b in case["builds"]) and any(x in ("f:0000000000000000", "f:8000000000000000") for x in items):
+            ev.append("seq:zero-sign-differs")
+        if len(items) >= 9:
+            ev.append("seq:len>=9")
     elif fam == "map":
         kt, vt, keys, vals = case["kt"], case["vt"], case["keys"], case["vals"]
+        dv = {"Int": "i:1", "String": "s:78", "Blob": "b:" + "5a" * 16, "Float": "f:4045000000000000"}[vt]
+        okt = "String" if kt != "String" else "Int"
+        ovt = "Blob" if vt != "Blob" else "Int"
+        olit = {"String": "s:6b", "Int": "i:1", "Blob": "b:" + "a5" * 16}
 
         def mk(slot, b):
-            tgt = slot if b["via"] == "direct" else slot + 4
-            P.add("new %%%d heap t:%s t:%s t:%s" % (tgt, b["kind"], kt, vt))
-            if b["reserve"] and b["kind"] == "Table":
+            via = b["via"]
+            tgt = slot if via == "direct" else slot + 4
+            kind = b["kind"] if via != "assign_x" else ("Tree" if b["kind"] == "Table" else "Table")
+            z = (lambda x: _flip_zero(x)) if b.get("zflip") else (lambda x: x)
+            P.add("new %%%d heap t:%s t:%s t:%s" % (tgt, kind, kt, vt))
+            if b["reserve"] and kind == "Table":
                 P.add("resize %%%d %d" % (tgt, b["reserve"] + len(keys)))
+            if b.get("prefill"):
+                # bindings that are wiped again before the real ones go in
+                for d in sorted(set(b["detour"])) or [0]:
+                    P.add("set %%%d %s %s" % (tgt, case["extra"][d], dv))
+                for i in b["order"][:2]:
+                    P.add("set %%%d %s %s" % (tgt, keys[i], dv))
+                P.add("resize %%%d 0" % tgt)
             at = b["detour_at"] * (len(keys) + 1) // 1001
             for n_, i in enumerate(b["order"]):
                 if n_ == at:
                     for d in b["detour"]:
-                        P.add("set %%%d %s %s" % (tgt, case["extra"][d], vals[0] if vals else {"Int": "i:1", "String": "s:78", "Blob": "b:" + "5a" * 16}[vt]))
-                P.add("set %%%d %s %s" % (tgt, keys[i], vals[i]))
+                        P.add("set %%%d %s %s" % (tgt, case["extra"][d], vals[0] if vals else dv))
+                P.add("set %%%d %s %s" % (tgt, z(keys[i]), z(vals[i])))
             if at >= len(keys):
                 for d in b["detour"]:
-                    P.add("set %%%d %s %s" % (tgt, case["extra"][d], {"Int": "i:1", "String": "s:78", "Blob": "b:" + "5a" * 16}[vt]))
+                    P.add("set %%%d %s %s" % (tgt, case["extra"][d], dv))
             for d in sorted(set(b["detour"])):
                 P.add("rem %%%d %s" % (tgt, case["extra"][d]))
-            if b["via"] == "copy":
-                P.add("copy %%%d %%%d" % (slot, tgt), lambda o: None if o.startswith("ok") else "copy failed: " + o)
-            elif b["via"] == "assign":
+            if via == "copy":
+                P.add("copy %%%d %%%d" % (slot, tgt), okc("copy"))
+            elif via in ("assign", "assign_x"):
                 P.add("new %%%d heap t:%s t:%s t:%s" % (slot, b["kind"], kt, vt))
                 if case["extra"]:
-                    P.add("set %%%d %s %s" % (slot, case["extra"][0], {"Int": "i:1", "String": "s:78", "Blob": "b:" + "5a" * 16}[vt]))
-                P.add("assign %%%d %%%d" % (slot, tgt), lambda o: None if o.startswith("ok") else "assign failed: " + o)
+                    P.add("set %%%d %s %s" % (slot, case["extra"][0], dv))
+                P.add("assign %%%d %%%d" % (slot, tgt), okc("assign"))
+            elif via == "assign_retype":
+                P.add("new %%%d heap t:%s t:%s t:%s" % (slot, b["kind"], okt, ovt))
+                P.add("set %%%d %s %s" % (slot, olit[okt], olit[ovt]))
+                P.add("assign %%%d %%%d" % (slot, tgt), okc("assign"))
         mk(0, case["builds"][0])
         mk(1, case["builds"][1])
-        want = sorted((lit_repr(k), lit_repr(v)) for k, v in zip(keys, vals))
+        want = sorted((_norm_zero(lit_repr(k)), _norm_zero(lit_repr(v))) for k, v in zip(keys, vals))
+
+        def norm_pairs(body):
+            return [(_norm_zero(k), _norm_zero(v)) for k, v in maps.parse_pairs(body)]
         for s in (0, 1):
             def chk(o, s=s):
                 if not o.startswith("ok {"):
                     return "iteration failed " + o
-                pairs = maps.parse_pairs(o[4:-1])
+                pairs = norm_pairs(o[4:-1])
                 G.v["order%d" % s] = [k for k, _ in pairs]
                 if sorted(pairs) != want:
                     return "map %d holds %s, expected %s" % (s, sorted(pairs), want)
@@ -333,12 +440,12 @@ def run_case(ctx, case):
             P.add("hash %1", G.want("h1"))
             post.append(lambda: None if G.v.get("h0") == G.v.get("h1") else "Table and Tree with identical bindings hash differently")
         # copy of the first
-        P.add("copy %2 %0", lambda o: None if o.startswith("ok") else "copy failed: " + o)
+        P.add("copy %2 %0", okc("copy"))
 
         def chk2(o):
             if not o.startswith("ok {"):
                 return "iteration failed " + o
-            pairs = maps.parse_pairs(o[4:-1])
+            pairs = norm_pairs(o[4:-1])
             G.v["order2"] = [k for k, _ in pairs]
             return None if sorted(pairs) == want else "copy holds %s, expected %s" % (sorted(pairs), want)
         P.add("fwdkv %2", chk2)
@@ -354,65 +461,137 @@ def run_case(ctx, case):
                 return None
             post.append(chk_cp)
         nt = case["builds"][0] != case["builds"][1] or not keys
-        ev += ["kind=" + k for k in kinds]
+        ev += ["kind=" + k for k in kinds] + ["via=" + b["via"] for b in case["builds"]]
+        ev.append("map-types=%s,%s" % (kt, vt))
+        if any(b.get("prefill") for b in case["builds"]):
+            ev.append("map:prefill+clear")
+        if any(b.get("zflip") for b in case["builds"]) and any(x in ("f:0000000000000000", "f:8000000000000000") for x in keys + vals):
+            ev.append("map:zero-sign-differs")
+        if len(keys) >= 11:
+            ev.append("map:len>=11")
     elif fam == "swap":
-        a, b = case["a"], case["b"]
         if case["cont"]:
             ck = case["ck"]
+            et = case.get("et", "Int")
+            use = case.get("use", False)
+            enc = (lambda x: "i:%d" % x) if et == "Int" else (lambda x: "s:" + x)
             seen = {}
+            ev.append("swap-" + ck)
+            ev.append("swap-elem=" + et)
+            if use:
+                ev.append("swap:used-afterwards")
             if ck in ("Table", "Tree"):
                 # maps: keys = the distinct items, value = position; the dump is whatever the container shows before
                 # the swap (slot order travels with the value), plus len and get of every key afterwards
                 for s_, its in ((0, case["items"][0]), (1, case["items"][1])):
-                    P.add("new %%%d heap t:%s t:Int t:Int" % (s_, ck))
+                    P.add("new %%%d heap t:%s t:%s t:Int" % (s_, ck, et))
                     for j, x in enumerate(its):
-                        P.add("set %%%d i:%d i:%d" % (s_, x, j))
+                        P.add("set %%%d %s i:%d" % (s_, enc(x), j))
                 P.add("repr %0", lambda o: seen.__setitem__("a", o))
                 P.add("repr %1", lambda o: seen.__setitem__("b", o))
+                P.add("hash %0", lambda o: seen.__setitem__("ha", o))
+                P.add("hash %1", lambda o: seen.__setitem__("hb", o))
                 P.add("swap %0 %1")
                 P.add("repr %0", lambda o: None if o == seen.get("b") else "after swap the first %s shows %s, the second one showed %s before" % (ck, o, seen.get("b")))
                 P.add("repr %1", lambda o: None if o == seen.get("a") else "after swap the second %s shows %s, the first one showed %s before" % (ck, o, seen.get("a")))
+                P.add("hash %0", lambda o: None if o == seen.get("hb") else "after swap the first %s hashes to %s, the second one hashed to %s before" % (ck, o, seen.get("hb")))
+                P.add("hash %1", lambda o: None if o == seen.get("ha") else "after swap the second %s hashes to %s, the first one hashed to %s before" % (ck, o, seen.get("ha")))
+                nk = "i:77" if et == "Int" else "s:6e6577"
                 for s_, its in ((0, case["items"][1]), (1, case["items"][0])):
                     last = {x: j for j, x in enumerate(its)}
                     P.add("len %%%d" % s_, expect_ok(str(len(last))))
                     for x, j in last.items():
-                        P.add("get %%%d i:%d" % (s_, x), expect_ok("i%d" % j))
-                    P.add("set %%%d i:77 i:1" % s_)
-                    P.add("len %%%d" % s_, expect_ok(str(len(last) + (0 if 77 in last else 1))))
+                        P.add("get %%%d %s" % (s_, enc(x)), expect_ok("i%d" % j))
+                    P.add("set %%%d %s i:1" % (s_, nk))
+                    P.add("len %%%d" % s_, expect_ok(str(len(last) + (0 if (77 if et == "Int" else "6e6577") in last else 1))))
                 P.add("del %0")
                 P.add("del %1")
                 fail, obs = P.run(ctx.executor("ex_vm"))
-                return Result(fail, case["items"][0] != case["items"][1], ev + ["swap-" + ck], None)
+                return Result(fail, case["items"][0] != case["items"][1], ev, None)
             if ck == "Tuple":
                 for s_, its in ((0, case["items"][0]), (1, case["items"][1])):
                     refs = []
                     for j, x in enumerate(its):
-                        P.add("new %%%d heap t:Int i:%d" % (20 + 10 * s_ + j, x))
+                        P.add("new %%%d heap t:%s %s" % (20 + 10 * s_ + j, et, enc(x)))
                         refs.append("%%%d" % (20 + 10 * s_ + j))
                     P.add("new %%%d heap t:Tuple %s" % (s_, " ".join(refs)))
             else:
-                P.add("new %%0 heap t:%s t:Int %s" % (ck, " ".join("i:%d" % x for x in case["items"][0])))
-                P.add("new %%1 heap t:%s t:Int %s" % (ck, " ".join("i:%d" % x for x in case["items"][1])))
+                P.add("new %%0 heap t:%s t:%s %s" % (ck, et, " ".join(enc(x) for x in case["items"][0])))
+                P.add("new %%1 heap t:%s t:%s %s" % (ck, et, " ".join(enc(x) for x in case["items"][1])))
             tag = {"Array": "A", "List": "L", "Tuple": "U"}[ck]
-            ra = "%s[%s]" % (tag, ",".join("i%d" % x for x in case["items"][0]))
-            rb = "%s[%s]" % (tag, ",".join("i%d" % x for x in case["items"][1]))
-            ev.append("swap-" + ck)
+            rp = lambda its: "%s[%s]" % (tag, ",".join(lit_repr(enc(x)) for x in its))
+            ra, rb = rp(case["items"][0]), rp(case["items"][1])
         else:
-            cls = case["cls"] if a[0] != "Type" else "stack"
+            a, b = case["a"], case["b"]
             if a[0] == "Type":
                 return Result(None, False, ["swap-type-skipped"], None)
-            materialise(P, 0, 10, a, cls, a)
-            materialise(P, 1, 14, b, cls, b)
+            cls = case["cls2"] if "cls2" in case else [case["cls"], case["cls"]]
+            ev.append("swap-type=" + a[0])
+            ev.append("swap-cls=" + "/".join(sorted(cls)))
+            use = False
+            cont_checks = []
+            if cls[0].startswith("same_"):
+                # the two values are neighbours inside one container (what a sort does)
+                ckind = "Array" if cls[0] == "same_arr" else "List"
+                P.add("new %%10 heap t:%s t:%s %s %s %s" % (ckind, a[0], a[1], _DEF[a[0]], b[1]))
+                P.add("get %10 i:0 %0")
+                P.add("get %10 i:2 %1")
+                t_ = ckind[0]
+                d_ = lit_repr(_DEF[a[0]])
+                cont_checks = [("%s[%s,%s,%s]" % (t_, lit_repr(a[1]), d_, lit_repr(b[1]))), ("%s[%s,%s,%s]" % (t_, lit_repr(b[1]), d_, lit_repr(a[1])))]
+            else:
+                materialise(P, 0, 10, a, cls[0], a)
+                materialise(P, 1, 14, b, cls[1], b)
             ra, rb = lit_repr(a[1]), lit_repr(b[1])
+        seen = {}
         P.add("repr %0", expect_ok(ra))
         P.add("repr %1", expect_ok(rb))
+        P.add("hash %0", lambda o: seen.__setitem__("ha", o))
+        P.add("hash %1", lambda o: seen.__setitem__("hb", o))
         P.add("swap %0 %1")
         P.add("repr %0", expect_ok(rb))
         P.add("repr %1", expect_ok(ra))
+        P.add("hash %0", lambda o: None if o == seen.get("hb") else "after swap the first value hashes to %s, the second one hashed to %s before" % (o, seen.get("hb")))
+        P.add("hash %1", lambda o: None if o == seen.get("ha") else "after swap the second value hashes to %s, the first one hashed to %s before" % (o, seen.get("ha")))
+        if not case["cont"] and cont_checks:
+            P.add("repr %10", expect_ok(cont_checks[1]))
         P.add("swap %1 %0")
         P.add("repr %0", expect_ok(ra))
         P.add("repr %1", expect_ok(rb))
+        if not case["cont"] and cont_checks:
+            P.add("repr %10", expect_ok(cont_checks[0]))
+        if case["cont"] and use:
+            # the swapped containers stay fully usable: one more swap, grow both, dump, delete both
+            P.add("swap %0 %1")
+            if ck == "Tuple":
+                P.add("new %%60 heap t:%s %s" % (et, enc(9 if et == "Int" else "6e6577")))
+                nl = "%60"
+            else:
+                nl = enc(9 if et == "Int" else "6e6577")
+            P.add("push %%0 %s" % nl)
+            P.add("push %%1 %s" % nl)
+            P.add("repr %0", expect_ok(rp(case["items"][1] + [9 if et == "Int" else "6e6577"])))
+            P.add("repr %1", expect_ok(rp(case["items"][0] + [9 if et == "Int" else "6e6577"])))
+            P.add("del %0")
+            P.add("del %1")
         nt = ra != rb
+    elif fam == "view":
+        # NOT generated (see ASSUMPTIONS): Range / Slice have Cmp but no Hash, and copy() of them raises.  Kept so that the
+        # candidate defect can be replayed: ./check C10 --replay <case with fam=view>
+        a = " ".join("i:%d" % x for x in case["args"])
+        if case["kind"] == "Range":
+            P.add("new %%0 heap t:Range %s" % a)
+            P.add("stk %%1 range %s" % a)
+        else:
+            P.add("new %9 heap t:Array t:Int i:1 i:2 i:3 i:4")
+            P.add("new %%0 heap t:Slice %%9 %s" % a)
+            P.add("stk %%1 slice %%9 %s" % a)
+        eq_and_hash(0, 1, "pair")
+        if case.get("copy"):
+            P.add("copy %2 %0", okc("copy"))
+            eq_and_hash(0, 2, "copy")
+        nt = True
+        ev.append("view=" + case["kind"])
     else:
         raise HarnessBug(fam)
     fail, obs = P.run(ctx.executor("ex_vm"))
